@@ -9,6 +9,17 @@ use std::time::Instant;
 
 pub const VERIF_DIR: &str = "/verif";
 
+/// The repository under test (`VERIF_REPO` lets the seed-regression script point a copy of the
+/// engine at a copy of the repository; the registered commands always use /repo).
+pub fn repo_dir() -> String {
+    std::env::var("VERIF_REPO").unwrap_or_else(|_| "/repo".to_string())
+}
+
+/// The `scc` binary built by `./run` from the repository's working tree.
+pub fn scc_path() -> std::path::PathBuf {
+    std::env::var("VERIF_SCC").map(std::path::PathBuf::from).unwrap_or_else(|_| std::path::PathBuf::from("/verif/engine/target/scc/release/scc"))
+}
+
 #[derive(Debug, Clone, Copy, PartialEq, Eq)]
 pub enum Tier {
     Quick,
